@@ -20,6 +20,16 @@ type ArgSpec struct {
 type ConnSpec struct {
 	Prefix string `json:"prefix"`
 	Node   string `json:"node"` // type string of the edge's node field
+	// Impl lists the prefixes of the connection interfaces (Spec.ConnIfaces) this connection implements.
+	Impl []string `json:"impl,omitempty"`
+}
+
+// ConnIface is an apifu.ConnectionInterface: interfaces <Prefix>Connection and <Prefix>Edge, both
+// carrying Req.
+type ConnIface struct {
+	Prefix string   `json:"prefix"`
+	Node   string   `json:"node"`
+	Req    []string `json:"req,omitempty"`
 }
 
 type FieldSpec struct {
@@ -47,9 +57,12 @@ type TypeSpec struct {
 }
 
 type Spec struct {
-	Types    []TypeSpec `json:"types"`
-	Query    string     `json:"query"`
-	Mutation string     `json:"mutation,omitempty"`
+	Types      []TypeSpec  `json:"types"`
+	Query      string      `json:"query"`
+	Mutation   string      `json:"mutation,omitempty"`
+	ConnIfaces []ConnIface `json:"conn_ifaces,omitempty"`
+	// Subscription names the subscription root type ("" = none).
+	Subscription string `json:"subscription,omitempty"`
 	// Orphans are connection fields whose host type was erased while the field itself (hence its
 	// <Prefix>Connection / <Prefix>Edge types, which carry the field's features) stays visible: the
 	// types are still built and registered, the field hangs nowhere. Only eraseSpec produces them.
@@ -57,10 +70,15 @@ type Spec struct {
 }
 
 func (s *Spec) clone() *Spec {
-	out := &Spec{Query: s.Query, Mutation: s.Mutation}
+	out := &Spec{Query: s.Query, Mutation: s.Mutation, Subscription: s.Subscription}
+	for _, ci := range s.ConnIfaces {
+		ci.Req = append([]string(nil), ci.Req...)
+		out.ConnIfaces = append(out.ConnIfaces, ci)
+	}
 	for _, f := range s.Orphans {
 		nf := f
 		c := *f.Conn
+		c.Impl = append([]string(nil), f.Conn.Impl...)
 		nf.Conn = &c
 		out.Orphans = append(out.Orphans, nf)
 	}
@@ -78,6 +96,7 @@ func (s *Spec) clone() *Spec {
 			nf.Args = append([]ArgSpec(nil), f.Args...)
 			if f.Conn != nil {
 				c := *f.Conn
+				c.Impl = append([]string(nil), f.Conn.Impl...)
 				nf.Conn = &c
 			}
 			nt.Fields = append(nt.Fields, nf)
@@ -106,6 +125,11 @@ func (s *Spec) features() []string {
 			for _, f := range fd.Req {
 				set[f] = true
 			}
+		}
+	}
+	for _, ci := range s.ConnIfaces {
+		for _, f := range ci.Req {
+			set[f] = true
 		}
 	}
 	var out []string
@@ -156,14 +180,31 @@ func fset(fs []string) map[string]bool {
 func expand(s *Spec) *Spec {
 	out := s.clone()
 	var extra []TypeSpec
-	connTypes := func(c *ConnSpec, req []string) {
+	for _, ci := range out.ConnIfaces {
 		extra = append(extra,
-			TypeSpec{Kind: "object", Name: c.Prefix + "Connection", Req: append([]string(nil), req...), Fields: []FieldSpec{
+			TypeSpec{Kind: "interface", Name: ci.Prefix + "Connection", Req: append([]string(nil), ci.Req...), Fields: []FieldSpec{
+				{Name: "edges", Type: "[" + ci.Prefix + "Edge!]!"},
+				{Name: "pageInfo", Type: "PageInfo!"},
+			}},
+			TypeSpec{Kind: "interface", Name: ci.Prefix + "Edge", Req: append([]string(nil), ci.Req...), Fields: []FieldSpec{
+				{Name: "cursor", Type: "String!"},
+				{Name: "node", Type: ci.Node},
+			}})
+	}
+	out.ConnIfaces = nil
+	connTypes := func(c *ConnSpec, req []string) {
+		var ci, ei []string
+		for _, p := range c.Impl {
+			ci = append(ci, p+"Connection")
+			ei = append(ei, p+"Edge")
+		}
+		extra = append(extra,
+			TypeSpec{Kind: "object", Name: c.Prefix + "Connection", Req: append([]string(nil), req...), Ifaces: ci, Fields: []FieldSpec{
 				{Name: "edges", Type: "[" + c.Prefix + "Edge!]!"},
 				{Name: "pageInfo", Type: "PageInfo!"},
 				{Name: "totalCount", Type: "Int!"},
 			}},
-			TypeSpec{Kind: "object", Name: c.Prefix + "Edge", Req: append([]string(nil), req...), Fields: []FieldSpec{
+			TypeSpec{Kind: "object", Name: c.Prefix + "Edge", Req: append([]string(nil), req...), Ifaces: ei, Fields: []FieldSpec{
 				{Name: "cursor", Type: "String!"},
 				{Name: "node", Type: c.Node},
 			}})
@@ -210,20 +251,41 @@ func eraseSpec(s *Spec, F map[string]bool) *Spec {
 			alive[t.Name] = true
 		}
 	}
-	out := &Spec{Query: s.Query, Mutation: s.Mutation}
+	out := &Spec{Query: s.Query, Mutation: s.Mutation, Subscription: s.Subscription}
 	if out.Mutation != "" && !alive[out.Mutation] {
 		out.Mutation = ""
 	}
+	if out.Subscription != "" && !alive[out.Subscription] {
+		out.Subscription = ""
+	}
+	aliveCI := map[string]bool{}
+	for _, ci := range s.ConnIfaces {
+		if subset(ci.Req, F) {
+			aliveCI[ci.Prefix] = true
+			out.ConnIfaces = append(out.ConnIfaces, ci)
+		}
+	}
+	keepConn := func(f FieldSpec) FieldSpec {
+		c := *f.Conn
+		c.Impl = nil
+		for _, p := range f.Conn.Impl {
+			if aliveCI[p] {
+				c.Impl = append(c.Impl, p)
+			}
+		}
+		f.Conn = &c
+		return f
+	}
 	for _, f := range s.Orphans {
 		if subset(f.Req, F) {
-			out.Orphans = append(out.Orphans, f)
+			out.Orphans = append(out.Orphans, keepConn(f))
 		}
 	}
 	for _, t := range s.Types {
 		if !alive[t.Name] {
 			for _, f := range t.Fields {
 				if f.Conn != nil && subset(f.Req, F) {
-					out.Orphans = append(out.Orphans, f) // its connection types are visible and stay
+					out.Orphans = append(out.Orphans, keepConn(f)) // its connection types are visible and stay
 				}
 			}
 			continue
@@ -238,8 +300,7 @@ func eraseSpec(s *Spec, F map[string]bool) *Spec {
 			nf.Req = append([]string(nil), f.Req...)
 			nf.Args = append([]ArgSpec(nil), f.Args...)
 			if f.Conn != nil {
-				c := *f.Conn
-				nf.Conn = &c
+				nf = keepConn(nf)
 			}
 			nt.Fields = append(nt.Fields, nf)
 		}
@@ -276,9 +337,9 @@ func argsSexp(as []ArgSpec) hx.Sexp {
 	return hx.L(out...)
 }
 
-// specSexp encodes an expanded spec: (schema query mutation|"" (type kind name (req…) (fields (f name type (req…) ((arg type)…))…) (ifaces…) (members…) (values…) (inputs (n t)…))…)
+// specSexp encodes an expanded spec: (schema query mutation|"" subscription|"" (type kind name (req…) (fields (f name type (req…) ((arg type)…))…) (ifaces…) (members…) (values…) (inputs (n t)…))…)
 func specSexp(s *Spec) hx.Sexp {
-	ts := []hx.Sexp{hx.A("schema"), hx.A(s.Query), hx.A(s.Mutation)}
+	ts := []hx.Sexp{hx.A("schema"), hx.A(s.Query), hx.A(s.Mutation), hx.A(s.Subscription)}
 	for _, t := range s.Types {
 		fs := make([]hx.Sexp, len(t.Fields))
 		for i, f := range t.Fields {
@@ -324,7 +385,7 @@ func canonSpec(s *Spec) string {
 		ts = append(ts, fmt.Sprintf("%s %s@%s{%s}impl[%s]mem[%s]val[%s]in[%s]", t.Kind, t.Name, strings.Join(r, "+"), strings.Join(fs, ";"), strings.Join(i, ","), strings.Join(m, ","), strings.Join(v, ","), strings.Join(in, ",")))
 	}
 	sort.Strings(ts)
-	return fmt.Sprintf("query=%s mutation=%s\n%s", s.Query, s.Mutation, strings.Join(ts, "\n"))
+	return fmt.Sprintf("query=%s mutation=%s subscription=%s\n%s", s.Query, s.Mutation, s.Subscription, strings.Join(ts, "\n"))
 }
 
 // wellFormed: the conventions every generated spec obeys and the shrinker must keep — all five
@@ -345,7 +406,7 @@ func wellFormed(s *Spec) bool {
 			}
 		}
 	}
-	if len(s.Orphans) > 0 {
+	if len(s.Orphans) > 0 || len(s.ConnIfaces) > 0 {
 		if p := s.find("PageInfo"); p == nil || p.Builtin != "PageInfo" {
 			return false
 		}
@@ -367,6 +428,9 @@ func stripReq(s *Spec) *Spec {
 	}
 	for i := range out.Orphans {
 		out.Orphans[i].Req = nil
+	}
+	for i := range out.ConnIfaces {
+		out.ConnIfaces[i].Req = nil
 	}
 	return out
 }
